@@ -4,6 +4,18 @@ NOTES = ("Exit codes of ./check: 0 held, 1 violation (VIOLATION line), 2 undecid
 _PENDING = "not yet brought under contract in this build round; see DESIGN.md Part II for the planned contracts"
 
 CHECKS = {
+    "C02": {
+        "text": "remove_pbc (real AST, re-read every run), for d in {2,3}, input shape (n,d) with symbolic n (at a symbolic row) or (d,), "
+                "every cell matrix with det != 0 (general and diagonal), every periodicity mask in {0,1}^d (enumerated): result - r is "
+                "minus the sum of rint(m_k) ppp_k H[k,:] with m = r H^-1 (integer multiples of periodic cell vectors only); the fractional "
+                "coordinates of the result are m_k - rint(m_k) ppp_k (in [-1/2,1/2] for periodic axes by the rint lemma, untouched "
+                "otherwise); shift invariance away from ties, idempotence and oddness by a second symbolic run of the real body on the "
+                "transformed input; shortest image for diagonal cells; inputs not written. Rational-function identities are decided by "
+                "the ring normaliser (normal form), rounding lemmas by SMT (linear integer/real arithmetic).",
+        "note": "floats as reals (A1); assumed contracts of np.linalg.inv (adjugate/det, requires det != 0), np.rint (round half to even), "
+                "np.dot, np.array; the ring normaliser pyvc/ring.py and the rewrite step (a proved lemma instance applied to a matching "
+                "atom) are trusted; refutations are exact rational assignments replayed on the real function",
+    },
     "C08": {
         "text": "For l = 1..10 and every m the value returned at index m+l by the real SphHarm{l} (AST re-read every run) equals the "
                 "Condon-Shortley Y_lm generated from the Legendre recurrence in exact rationals, identically in theta and phi "
@@ -25,4 +37,4 @@ CHECKS = {
 }
 
 NOT_APPLICABLE = {p: _PENDING for p in
-                  ["C01", "C02", "C03", "C04", "C05", "C06", "C07", "C09", "C10", "C11", "C13", "C14", "C15", "C16", "C17", "C18", "C19", "C20"]}
+                  ["C01", "C03", "C04", "C05", "C06", "C07", "C09", "C10", "C11", "C13", "C14", "C15", "C16", "C17", "C18", "C19", "C20"]}
